@@ -16,6 +16,7 @@ import WD.Proofs.Pipeline.Burst
 import WD.Proofs.Pipeline.BurstFiles
 import WD.Proofs.Pipeline.BurstFlat
 import WD.Proofs.Pipeline.BurstGrow
+import WD.Proofs.Pipeline.Paced
 import WD.Proofs.Pipeline.Theorems
 namespace WD.C01
 open WD WD.Pipe
@@ -191,5 +192,33 @@ example :
        ⟨.DirCreatedEvent, "W/x", "", false⟩, ⟨.DirModifiedEvent, "W", "", false⟩,
        ⟨.DirCreatedEvent, "W/x/y", "", false⟩, ⟨.DirModifiedEvent, "W/x", "", false⟩,
        ⟨.FileCreatedEvent, "W/x/y/z", "", false⟩, ⟨.DirModifiedEvent, "W/x/y", "", false⟩] := by decide +kernel
+
+
+/-- **paced histories**: the history is ANY sequence of bursts, each issued back to back and read as one batch after its
+    last operation, where a burst is (a) one operation of any kind - i.e. a drained operation: renames and moves of whole
+    directory trees, recursive deletes, replacements -, (b) file operations without limit (creations, writes, attribute
+    changes, removals, renames / replacements / moves of files), or (c) a nested creation burst (mkdirs and file
+    creations at any depth).  Replaying everything delivered, in order, on the initial tree gives the final tree.
+    Not covered: bursts of several operations that rename, move or remove DIRECTORIES. -/
+theorem replay_paced_partial (fs0 : FS) (hwf : fs0.WF) (full : Bool) (bs : List (List Op))
+    (hb : pacedOK (Sys.start fs0 true full) bs) :
+    sameTree (replay (treeW fs0) ((Sys.start fs0 true full).runBursts bs).2.flatten)
+             (treeW ((Sys.start fs0 true full).runBursts bs).1.fs) := by
+  obtain ⟨inv, hs, hc, h4, _⟩ := start_rec fs0 hwf full
+  have := (paced_run bs _ inv hs hc hb).2.2.2
+  rw [h4] at this; exact this
+
+/-- non-vacuity: a directory moved in from outside, a nested creation burst inside it, a file storm, the directory
+    renamed, another nested burst under the new name -/
+example :
+    let k0 : Kern := ⟨[], 1, 1⟩
+    let fs0 := [Op.mkdir ["O", "d"], .create ["O", "d", "b"]].foldl (fun fs op => (kernelOp fs k0 op).1) FS.init
+    let bs := [[Op.rename ["O", "d"] ["W", "d"]],
+               [.mkdir ["W", "d", "x"], .mkdir ["W", "d", "x", "y"], .create ["W", "d", "x", "y", "f"]],
+               [.create ["W", "a"], .rename ["W", "a"] ["W", "d", "x", "a"], .write ["W", "d", "b"], .unlink ["W", "d", "x", "y", "f"]],
+               [.rename ["W", "d"] ["W", "e"]],
+               [.mkdir ["W", "e", "x", "z"], .create ["W", "e", "x", "z", "g"], .mkdir ["W", "n"], .mkdir ["W", "n", "m"]]]
+    pacedOKB (Sys.start fs0 true false) bs = true ∧
+    ((Sys.start fs0 true false).runBursts bs).2.flatten.length = 38 := by decide +kernel
 
 end WD.C01
